@@ -20,7 +20,7 @@ REG = Registry(
     'C17',
     rule=('caches built from synthetic closed-form selection models (so hundreds are affordable) over generated gamma grids '
           '(bounds, 5-30 points, additional positive gammas); pdfs exponential / gamma / lognormal / beta and bivariate lognormal '
-          '(3/5 parameters, rho in (-1,1)) / independent gamma with generated parameters; theta; point masses; worker counts 1-16 and '
+          '(3/5 parameters, rho in (-1,1)) / independent gamma with generated parameters; theta; point masses at cached gammas and at uncached ones computed on demand (repeated calls on the same cache); worker counts 1-16 and '
           'split_jobs 1-6; faults = model raising on a chosen gamma, missing / duplicated / conflicting jobs. Non-trivial = at least '
           '8 gamma points and a pdf with >1% of its mass outside the grid, or a multi-process / split build, or a fault. Distinct by '
           'hash of the case.'),
@@ -131,7 +131,8 @@ def dist2(pdf):
 def c1d(draw):
     return dict(grid=draw(grid_case()), pdf=draw(pdf1_case()), seed=draw(st.integers(0, 2 ** 31 - 1)), n=draw(st.integers(3, 8)),
                 theta=draw(st.floats(0.1, 1e4)), blind=draw(st.sampled_from([False, False, True])), exterior=draw(st.sampled_from([True, True, False])),
-                ppos=draw(st.floats(0.0, 0.5)), ppos2=draw(st.floats(0.0, 0.4)), cpus=draw(st.sampled_from([1, 1, 1, 2, 3])))
+                ppos=draw(st.floats(0.0, 0.5)), ppos2=draw(st.floats(0.0, 0.4)), cpus=draw(st.sampled_from([1, 1, 1, 2, 3])),
+                gnew=draw(st.floats(0.05, 30.0)), theta_first=draw(st.sampled_from([1.0, 0.37, 2.5, 1e3])))
 
 
 def build_cache1d(case, model, cpus=None):
@@ -192,6 +193,24 @@ def r1(case, rec):
             exp2 = (1 - ppos - case['ppos2']) * exp + ppos * theta * Spos + case['ppos2'] * theta * S2
             require_close(np.asarray(np.ma.getdata(pp2), float), exp2, 1e-6, 'integrate_point_pos with two point masses', rec, key='point_pos1d x2',
                           atol=1e-7 * scale, finding='point-pos-theta')
+    # a point mass at a gamma the cache does not hold, computed on demand (demo_sel_func given): the first call, a second call with
+    # another theta on the now-extended cache, and the spectrum the cache has stored
+    gnew = case.get('gnew')
+    if gnew is not None and gnew not in list(cache.gammas):
+        Snew = np.asarray(np.ma.getdata(model([0.7, gnew], None, None)), float)
+        unit = exp / theta
+        ppos = case['ppos']
+        for k, th in enumerate([case['theta_first'] * theta, theta, 2.5 * theta]):
+            with dadi_call('Cache1D.integrate_point_pos(on-demand gamma)'):
+                od = cache.integrate_point_pos(list(pdf['params']) + [ppos, gnew], None, sel, th, demo_sel_func=model, Npos=1,
+                                               exterior_int=case['exterior'])
+            require_close(np.asarray(np.ma.getdata(od), float), (1 - ppos) * th * unit + ppos * th * Snew, 1e-6,
+                          'integrate_point_pos with a point mass computed on demand, call %d on this cache (theta=%g)' % (k + 1, th), rec,
+                          key='point_pos1d on demand', atol=1e-7 * max(th / theta, 1.0) * scale)
+        ii = list(cache.gammas).index(gnew)
+        require_close(np.asarray(cache.spectra[ii], float), Snew, 1e-13, 'spectrum stored by the on-demand evaluation vs the model at theta=1', rec,
+                      key='cache1d on-demand contents')
+        rec.label('on-demand point mass')
 
 
 @st.composite
